@@ -2,10 +2,13 @@
    Proved for the mint module: under every parameter set accepted by Params.Validate (as transcribed in
    mparams_valid, kernel-checked against the real Validate on every run) BeginBlock never aborts, mints a
    non-negative amount and keeps the minter well formed, at every height and for every supply.
-   For bet/house/orderbook/subaccount parameters the arithmetic guards are decided per run: boundary
-   parameter sets at genesis + histories + panic/ledger monitors (profile params). *)
+   Over ALL histories (C17_no_abort, Proofs/NoAbort.v): for every mint parameter set accepted by Params.Validate, every bet fee in
+   [0, minimum amount] (what validateConstraints accepts since fix f805ade), every house participation fee for which a deposit's two
+   payments succeed, every batch size, every withdrawal limit and every participation limit, block processing never aborts; the
+   ledgers of C01, C02, C03, C10, C11 are proved under the same (or weaker) parameter hypotheses in their own files.
+   Per run: boundary parameter sets at genesis + histories + panic/ledger monitors (profile params). *)
 From Coq Require Import ZArith Bool List.
-From Sge Require Import Lib.Dec Model.Mint Proofs.MintLive Proofs.MintSum.
+From Sge Require Import Lib.Dec Model.Types Model.Mint Model.Chain Proofs.MintLive Proofs.MintSum Proofs.SubHist Proofs.NoAbort.
 Import ListNotations.
 Open Scope Z_scope.
 
@@ -26,3 +29,14 @@ Example C17_default_params_valid :
                    phases := [{| ph_infl := 229787234042553191; ph_coef := PREC / 2 |};
                               {| ph_infl := 286259541984732824; ph_coef := PREC / 2 |}] |} = true.
 Proof. vm_compute. reflexivity. Qed.
+
+(* no accepted parameter combination makes block processing abort: the only hypotheses on the parameters are those enforced by the
+   modules' validators (bet fee within [0, min amount]; mint parameters valid); nothing is assumed about the batch sizes, the house
+   fee, the minimum deposit, the withdrawal and participation limits or the order-book threshold *)
+Theorem C17_no_abort : forall P bk supply vault MP t0 sw sd,
+  pr_bet_fee P <= pr_bet_min P -> 0 <= pr_bet_fee P ->
+  bget bk POOL = 0 -> bget bk HOUSEFEE = 0 -> bget bk BETFEE = 0 -> (forall a, SUBBASE <= a -> 0 <= bget bk a) ->
+  mparams_valid MP = true ->
+  forall ops o, Forall user_op ops -> snd (step (run (init bk supply P vault MP t0 sw sd) ops) o) <> Panic.
+Proof. exact no_panic. Qed.
+Print Assumptions C17_no_abort.
